@@ -23,7 +23,7 @@ from typing import Any, Dict, List, Optional, Tuple
 from harness.lib import coqbuild, protocol as P
 
 LEVEL = "proof"
-THEOREMS = ["C09_immutable", "C09_by_timestamp", "C09_delete_current", "C09_by_id"]
+THEOREMS = ["C09_immutable", "C09_by_timestamp", "C09_delete_current", "C09_by_id", "C09_collect_keeps_retained"]
 MANIFEST_ENTRY = {
     "level_text": "Immutability of committed versions under every later sequence of commits, failures and rollbacks proved in Coq "
                   "(C09_immutable, unbounded); time-travel lookups and current-snapshot repointing proved over the metadata model "
@@ -63,7 +63,19 @@ def ref_by_timestamp(state: Dict[str, Any], t: int) -> Optional[int]:
     return best
 
 
-def run_history(ctx, seed: int, length: int) -> Tuple[List[str], List[Dict[str, Any]], Dict[str, Any]]:
+# Directed histories (op names; "expire_old" = expire everything but the current snapshot): the shapes in which a
+# retained snapshot shares files / manifests with snapshots that are then removed, followed by a collection.
+DIRECTED = [
+    ["append_multi", "append", "delete_files", "expire_old", "collect"],
+    ["append_multi", "delete_files", "expire_old", "collect", "append", "collect"],
+    ["append_multi", "append_multi", "delete_files", "delete_files", "expire_old", "collect"],
+    ["append", "append_multi", "delete_files", "delete_snapshot_old", "delete_snapshot_old", "collect"],
+    ["append_multi", "delete_files", "append", "delete_snapshot_cur", "collect", "expire_old", "collect"],
+    ["append_multi", "failed_commit", "delete_files", "failed_commit", "expire_old", "collect", "append", "collect"],
+]
+
+
+def run_history(ctx, seed: int, length: int, script: Optional[List[str]] = None) -> Tuple[List[str], List[Dict[str, Any]], Dict[str, Any]]:
     import random
     import datashard
     import datashard.file_manager as fm
@@ -91,8 +103,12 @@ def run_history(ctx, seed: int, length: int) -> Tuple[List[str], List[Dict[str, 
         t = datashard.create_table(root, Schema(schema_id=1, fields=FIELDS))
         recorded: Dict[int, Tuple[Tuple[str, ...], Tuple[int, ...]]] = {}
         nextv = [0]
-        for step in range(length):
+        for step in range(len(script) if script is not None else length):
             r = rng.random()
+            forced = script[step] if script is not None else None
+            if forced is not None:
+                r = {"append": 0.0, "append_multi": 0.0, "delete_files": 0.45, "expire_old": 0.6, "delete_snapshot_old": 0.7,
+                     "delete_snapshot_cur": 0.7, "collect": 0.85, "failed_commit": 0.95}[forced]
             if rng.random() < 0.6:
                 clock.ms += rng.choice([0, 0, 1, 5, 1000])       # equal timestamps are frequent on purpose
             state = P.read_table_independent(root)
@@ -101,7 +117,16 @@ def run_history(ctx, seed: int, length: int) -> Tuple[List[str], List[Dict[str, 
             try:
                 if r < 0.40 or not state["snapshots"]:
                     nextv[0] += 1
-                    t.append_records([{"x": nextv[0] * 10}, {"x": nextv[0] * 10 + 1}])
+                    if forced == "append_multi" or (forced is None and rng.random() < 0.4):
+                        # ONE transaction, several data files: they share a manifest, so a later partial delete rewrites it
+                        op = "append_multi"
+                        with t.new_transaction() as tx:
+                            for k in range(rng.choice([2, 3])):
+                                tx.append_data(records=[{"x": nextv[0] * 10 + k}])
+                            tx.commit()
+                        stats["multi_file_appends"] = stats.get("multi_file_appends", 0) + 1
+                    else:
+                        t.append_records([{"x": nextv[0] * 10}, {"x": nextv[0] * 10 + 1}])
                     stats["appends"] += 1
                 elif r < 0.52 and cur in state["snapshots"] and state["snapshots"][cur]["files"]:
                     op = "delete_files"
@@ -114,6 +139,8 @@ def run_history(ctx, seed: int, length: int) -> Tuple[List[str], List[Dict[str, 
                     op = "expire"
                     tss = sorted(s["ts"] for s in state["snapshots"].values())
                     cutoff = rng.choice(tss + [tss[-1] + 1, tss[0] - 1]) if tss else 0
+                    if forced == "expire_old" and tss:
+                        cutoff = tss[-1] + 1
                     with t.new_transaction() as tx:
                         tx.expire_snapshots(cutoff)
                         tx.commit()
@@ -121,6 +148,11 @@ def run_history(ctx, seed: int, length: int) -> Tuple[List[str], List[Dict[str, 
                 elif r < 0.78 and state["snapshots"]:
                     op = "delete_snapshot"
                     sid = rng.choice(list(state["snapshots"]))
+                    if forced == "delete_snapshot_cur" and cur is not None:
+                        sid = cur
+                    elif forced == "delete_snapshot_old":
+                        olds = [x for x in state["log_order"] if x in state["snapshots"] and x != cur]
+                        sid = olds[0] if olds else sid
                     t.snapshot_manager.delete_snapshot(sid)
                     stats["delete_snapshots"] += 1
                 elif r < 0.90:
@@ -233,16 +265,22 @@ def run(ctx) -> None:
     nh, length = (14, 14) if quick else (150, 40)
     all_lookups: List[Dict[str, Any]] = []
     agg: Dict[str, int] = {}
-    for h in range(nh):
-        seed = ctx.rng.randrange(1 << 30)
-        viol, lookups, stats = run_history(ctx, seed, length)
+    jobs: List[Tuple[int, Optional[List[str]]]] = []
+    for di, script in enumerate(DIRECTED):
+        for rep in range(1 if quick else 6):
+            jobs.append((1000 * di + rep, script))
+    jobs += [(ctx.rng.randrange(1 << 30), None) for _ in range(nh)]
+    for seed, script in jobs:
+        viol, lookups, stats = run_history(ctx, seed, length, script)
         ctx.count(stats["steps"], ("hist", seed))
         for k, v in stats.items():
             agg[k] = agg.get(k, 0) + v
         for v in viol[:3]:
-            ctx.violation("history:" + v.split(" ")[3 if v.startswith("after step") else 0][:24], v, {"seed": seed, "length": length})
+            ctx.violation("history:" + v.split(" ")[3 if v.startswith("after step") else 0][:24], v,
+                          {"seed": seed, "length": length, "script": script})
         all_lookups.extend(lookups)
-    ctx.stats["histories"] = nh
+    ctx.stats["histories"] = len(jobs)
+    ctx.stats["directed_histories"] = len(jobs) - nh
     ctx.stats.update(agg)
     ctx.stats["timestamp_lookups"] = len(all_lookups)
     if all_lookups:
@@ -257,6 +295,6 @@ def replay(ctx, payload) -> int:
     if "seed" not in c:
         print("replay: no concrete case")
         return 2
-    viol, _l, _s = run_history(ctx, c["seed"], c["length"])
+    viol, _l, _s = run_history(ctx, c["seed"], c["length"], c.get("script"))
     print("replay:", "STILL FAILS: " + viol[0] if viol else "passes now")
     return 1 if viol else 0
